@@ -51,17 +51,6 @@ Definition closest_fl (norm : bool) (q : list bytes) (d : dict) : cres :=
          end
   end.
 
-(** the same over Q with the model's own key segmentation (what [closest_fl] is proved equal to) *)
-Definition kdist_m (norm : bool) (q : list bytes) (e : word * N) : Q := distance nofl norm q (seg_key (fst e)).
-Definition closest_m (norm : bool) (q : list bytes) (d : dict) : cres :=
-  match d with
-  | [] => CNone
-  | _ => match pass1 (map (fun e => (kdist_m norm q e, e)) d) None [] with
-         | [] => CNone
-         | t :: ts => CSome (pass2 t ts)
-         end
-  end.
-
 (** * val glue
     answers of the float level: per query [(get? closest? dists)]
       get?     = () | ((freq rel))         rel: float fields of the returned relative frequency
